@@ -7,7 +7,9 @@ import (
 	"path/filepath"
 	"sort"
 	"strings"
+	"sync/atomic"
 	"testing"
+	"time"
 
 	"github.com/cockroachdb/pebble"
 	"github.com/cockroachdb/pebble/internal/manifest"
@@ -46,6 +48,7 @@ type crashCtl struct {
 	noWAL     bool
 	wantFiles bool // C22: also recover every clone read-only and record the recovered version's tables
 	disabled  bool
+	jitter, inflight, passed atomic.Int64
 	fmvlo, fmvhi int // C40: format major version bounds a recovered store must respect
 }
 
@@ -75,7 +78,19 @@ func (c *crashCtl) injector() errorfs.Injector {
 		if !op.Kind.IsWrite() || c.disabled {
 			return nil
 		}
+		c.inflight.Add(1)
 		c.before(op)
+		c.inflight.Add(-1)
+		c.passed.Add(1)
+		// Schedule perturbation: an fsync is where the storage protocol has its windows (state
+		// captured before the sync, recorded after it).  Holding the caller here for a moment
+		// (outside the trace mutex) lets concurrent jobs - a flush, a compaction, an ingest -
+		// run into that window, which an in-memory filesystem otherwise never opens.
+		if op.Kind == errorfs.OpFileSync || op.Kind == errorfs.OpFileSyncData || op.Kind == errorfs.OpFileSyncTo {
+			if n := c.jitter.Add(1); n%3 != 0 {
+				time.Sleep(time.Duration(50+(n*37)%400) * time.Microsecond)
+			}
+		}
 		return nil
 	})
 }
@@ -463,17 +478,18 @@ type crashProfile struct {
 	finding   bool // allow direct-to-LSM ingest/excise while earlier commits are not durable
 	flushOnly bool // make earlier commits durable by Flush only (C13: the durable-only view ignores memtables)
 	reopenPct int  // continue from a crash clone
+	concPct   int  // a direct ingest issued while a flush runs (two jobs creating and syncing objects at once)
 }
 
 func crashProfiles() map[string]crashProfile {
 	return map[string]crashProfile{
-		"C10": {name: "C10", syncPct: 45, flushPct: 10, ingestPct: 6, excisePct: 3, compactPct: 6, bigPct: 6, reopenPct: 3},
+		"C10": {name: "C10", syncPct: 45, flushPct: 10, ingestPct: 6, excisePct: 3, compactPct: 6, bigPct: 6, reopenPct: 3, concPct: 8},
 		"C11": {name: "C11", syncPct: 25, flushPct: 8, ingestPct: 6, excisePct: 3, compactPct: 6, bigPct: 8, reopenPct: 5},
 		"C11F": {name: "C11F", syncPct: 25, flushPct: 4, ingestPct: 14, excisePct: 6, compactPct: 4, bigPct: 4, finding: true},
 		"C12": {name: "C12", syncPct: 0, flushPct: 22, ingestPct: 0, excisePct: 0, compactPct: 8, bigPct: 8, reopenPct: 3},
 		"C13": {name: "C13", syncPct: 20, flushPct: 14, ingestPct: 5, excisePct: 2, compactPct: 6, bigPct: 6, flushOnly: true},
 		"C13F": {name: "C13F", syncPct: 20, flushPct: 6, ingestPct: 14, excisePct: 4, compactPct: 4, bigPct: 4, finding: true},
-		"C22": {name: "C22", syncPct: 0, flushPct: 22, ingestPct: 8, excisePct: 4, compactPct: 14, bigPct: 6, reopenPct: 3},
+		"C22": {name: "C22", syncPct: 0, flushPct: 22, ingestPct: 8, excisePct: 4, compactPct: 14, bigPct: 6, reopenPct: 3, concPct: 8},
 	}
 }
 
@@ -491,7 +507,7 @@ func runCrash(u Univ, cfg Config, cp crashProfile, seed uint64, steps int, path 
 	tune(c)
 	open := func(m *vfs.MemFS) error {
 		c.mem = m
-		fs := errorfs.Wrap(m, c.injector())
+		fs := errorfs.Wrap(delayFS{FS: m, n: &c.jitter, inflight: &c.inflight, passed: &c.passed}, c.injector())
 		r = NewRunner(u, cfg, fs, "db", t)
 		r.Crash = c
 		c.r = r
@@ -564,6 +580,29 @@ func runCrash(u Univ, cfg Config, cp crashProfile, seed uint64, steps int, path 
 				r.Exec(Ev{"op": "excise", "a": a, "b": b})
 				g.trackExcise(a, b)
 				winLen++
+			case x >= 100-cp.concPct:
+				// two jobs at once: a flush running in the background while the client ingests a table
+				// on other keys (both create objects and sync the directory)
+				if winLen == 0 {
+					ops := []Ev{g.writeOp(false, map[int]bool{})}
+					r.Exec(Ev{"op": "commit", "ops": ops, "sync": !cfg.DisableWAL})
+					g.track(ops)
+					winLen++
+				} else if needDurable() {
+					makeDurable()
+				}
+				done, ferr := r.DB.AsyncFlush()
+				tables, flat := g.ingestTables()
+				r.Exec(Ev{"op": "ingest", "tables": tables, "ops": flat})
+				g.track(flat)
+				winLen++
+				if ferr == nil {
+					<-done
+					t.Emit(Ev{"op": "maint", "kind": "flush"})
+					t.Emit(Ev{"op": "durable"})
+					unacked, winLen = 0, 0
+					c.afterReturn()
+				}
 			case x < cp.flushPct+cp.compactPct+cp.ingestPct+cp.excisePct+cp.reopenPct:
 				// crash for real and continue on the clone
 				items := c.mem.UnsyncedItems()
